@@ -125,6 +125,12 @@ def check(R, F, P, cfg):
     fcalls = S.calls_to(CCBOX0 + "finalize_inner")
     for n in fcalls:
         cl = n.ctx
+        if cl is S.root_ctx or cl.call_node is None:
+            info = finalize_pass_info(S)
+            ic = iteration_context(S, n)
+            okl = info["ok"] and ic is not None and ic["every"]
+            R.inst("R5.2", "fold-closure", okl, "finalization pass written as a loop: %s; finalize_inner on every iteration: %s" % (info["detail"], bool(ic and ic["every"])), where=n.where(), cfg=cfg)
+            continue
         # closure paths: entry -> return
         entry = S.blocks_of[(cl.id, 0)]
         rets = [x for x in S.nodes if x.ctx is cl and x.kind == "return"]
@@ -161,7 +167,7 @@ def check(R, F, P, cfg):
     R.floor("R5.2/fold", cfg, 1, len(fcalls))
     for n in S.calls_to("deallocate_list"):
         lits = S.literals_at(n, exclude=("ui", "u"))
-        ok = any(a[0] == "bool" and "fold" in fmt(a[1]) and t is False for a, t in lits)
+        ok = any(a[0] == "bool" and is_has_finalized(S, a[1]) and t is False for a, t in lits)
         R.inst("R5.2", "dealloc-only-if-nothing-finalized", ok, "deallocate_list in __collect under %s; required: the finalization fold returned false" % lits_str(lits), where=n.where(), cfg=cfg)
     # the finalizing flag spans the fold: flag analysis of C12 covers is_tracing; here: finalize_inner sites are inside the guard
     # ---- R5.3 created while finalizing ---------------------------------------------------------------------------------
@@ -228,3 +234,59 @@ def check(R, F, P, cfg):
 
     # garbage only: the stale-tracing-counter defect finalizes live objects
     c07.check_idle_tc(R, F, P, cfg, "R5.6")
+
+
+def _is_accumulator(S, e):
+    e = strip(e)
+    return isinstance(e, tuple) and e and e[0] in ("phi", "var") and getattr(S, "_acc_local", None) == e[2]
+
+
+def _loop_accumulator(S, n):
+    """finalize_inner called in a plain loop: accept iff (a) the call is on every iteration, (b) its result only ever
+    ORs into one boolean accumulator that starts false (`acc = r | acc`, `acc |= r`, `if r { acc = true }`), and
+    (c) that accumulator is what guards deallocate_list."""
+    ctx = n.ctx
+    fn = ctx.fn
+    if not on_cycle(S, n, exclude=("ui", "u")):
+        return False, "finalize_inner is not called in a loop over the list"
+    res_local = n.term["dest"]["l"] if not n.term["dest"]["p"] else None
+    # candidate accumulators: bool locals with several definitions
+    defs = S._defs(fn)
+    cands = [l for l, ds in defs.items() if fn.locals[l]["ty"] == "bool" and len(ds) >= 2]
+    for L in cands:
+        ok = True
+        init_false = False
+        uses_result = False
+        for d in defs[L]:
+            if d[0] != "stmt":
+                ok = False
+                break
+            st = fn.blocks[d[1]]["stmts"][d[2]]
+            rv = st["rv"]
+            nd = S.blocks_of.get((ctx.id, d[1]))
+            in_loop = nd is not None and on_cycle(S, nd, exclude=("ui", "u"))
+            if rv["k"] == "use" and rv["op"]["k"] == "const":
+                if rv["op"].get("val") == 0 and not in_loop:
+                    init_false = True
+                elif rv["op"].get("val") == 1 and in_loop:
+                    lits = S.literals_at(nd, exclude=("ui", "u"))
+                    if any(a[0] == "bool" and strip(a[1])[0] == "ret" and strip(a[1])[1] == CCBOX0 + "finalize_inner" and t is True for a, t in lits):
+                        uses_result = True
+                    else:
+                        ok = False
+                else:
+                    ok = False
+            elif rv["k"] == "bin" and rv["op"] == "BitOr":
+                ops = [rv["a"], rv["b"]]
+                ls = [o["place"]["l"] for o in ops if o["k"] in ("copy", "move") and not o["place"]["p"]]
+                if L in ls and (res_local in ls):
+                    uses_result = True
+                else:
+                    ok = False
+            else:
+                ok = False
+        if ok and init_false and uses_result:
+            S._acc_local = L
+            # every iteration calls finalize_inner: the loop head is the Iterator::next switch
+            return True, "accumulator `%s` starts false and only ORs finalize_inner's result in" % fn.local_name(L)
+    return False, "the result of finalize_inner does not OR into a boolean accumulator that starts false (e.g. it is plainly assigned: only the last element would decide whether the set is re-examined)"
